@@ -5,17 +5,23 @@
      lower bound  U (m x k), V (n x k), sig (k):   U^T J V = diag(sig) + E with |E_ij| <= eps, every sig_i >= floor and ||E||_F < floor
                   => U^T J V is invertible (smallest singular value >= floor - ||E||_2 > 0) => rank J >= k;
      upper bound  N (n x (n-k)) with orthonormal columns and J N = 0 up to eps  => the kernel has dimension >= n - k.
-   k must be ChartRank(a) and n must be ParamCount(a) - the two tables of Charts.tla.  Products of two scale-S integers are
-   brought back to scale S term by term (rounded division), so every intermediate stays inside 32 bits. *)
+   k must be ChartRank(a) and n must be ParamCount(a) - the two tables of Charts.tla.  Sums of products of two scale-S integers are
+   brought back to scale S with ONE rounding per inner product (quotients and remainders are accumulated separately), and every
+   intermediate stays inside 32 bits. *)
 EXTENDS Charts, Sequences, SequencesExt, TLC, Json, IOUtils
 Events == JsonDeserialize(IOEnv.TRACE_FILE)
 VARIABLE l
 IAbs(x) == IF x < 0 THEN -x ELSE x
 RDiv(x, S) == (x + S \div 2) \div S
+\* Inner products at scale S without accumulating a rounding per term: every product x = a*b is split into the quotient x \div S and the remainder x - S*(x \div S)
+\* (TLC: floor division, non-negative remainder), the quotients and the remainders are summed separately (both stay inside 32 bits)
+\* and only the sum of the remainders is rounded.
+Acc(acc, x, S) == <<acc[1] + x \div S, acc[2] + (x - S * (x \div S))>>
+Fin(acc, S) == acc[1] + RDiv(acc[2], S)
 \* (A^T B)[i][j] for A (p x q), B (p x r), result at scale S
-TMul(A, B, i, j, S) == FoldLeft(LAMBDA acc, t : acc + RDiv(A[t][i] * B[t][j], S), 0, [t \in 1..Len(A) |-> t])
+TMul(A, B, i, j, S) == Fin(FoldLeft(LAMBDA acc, t : Acc(acc, A[t][i] * B[t][j], S), <<0, 0>>, [t \in 1..Len(A) |-> t]), S)
 \* (A B)[i][j] for A (p x q), B (q x r)
-MMul(A, B, i, j, S) == FoldLeft(LAMBDA acc, t : acc + RDiv(A[i][t] * B[t][j], S), 0, [t \in 1..Len(B) |-> t])
+MMul(A, B, i, j, S) == Fin(FoldLeft(LAMBDA acc, t : Acc(acc, A[i][t] * B[t][j], S), <<0, 0>>, [t \in 1..Len(B) |-> t]), S)
 Cols(M) == IF M = <<>> THEN 0 ELSE Len(M[1])
 LowerOK(e, k) == \E T \in {TLCEval([i \in 1..Len(e.J) |-> [j \in 1..k |-> MMul(e.J, e.V, i, j, e.S)]])} :       \* T = J V   (m x k)
    /\ Cols(e.U) = k /\ Cols(e.V) = k /\ Len(e.sig) = k /\ Len(e.U) = Len(e.J) /\ Len(e.V) = Cols(e.J)
